@@ -658,3 +658,49 @@ def union_complement_deck(rng):
 
 def Cell_(cid, expr, mat):
     return D.Cell(cid, expr, mat=mat, rho='-1.0' if mat == 1 else '-2.0')
+
+
+def contradictory_union_deck(rng):
+    """unions whose members become patently empty only once identical surfaces under different numbers have been merged
+    (zero-thickness slabs between two cards of the same plane, a sphere shell between two cards of the same sphere),
+    alone or next to a real region; surface numbers scattered so that the converter's own numbers vary from deck to deck"""
+    d = D.Deck()
+    ids = sorted(rng.sample(range(1, 45), 12))
+    it = iter(ids)
+    members = []
+    nslab = rng.randint(1, 3)
+    for _ in range(nslab):
+        a, b = next(it), next(it)
+        kind = rng.choice(['px', 'py', 'pz', 'so'])
+        if kind == 'so':
+            r = rng.choice([2.0, 3.0, 4.5])
+            d.surfs += [D.Surf(a, 'so', [r]), D.Surf(b, rng.choice(['so', 's']), [r])]
+            if d.surfs[-1].mn == 's':
+                d.surfs[-1].ps = [0.0, 0.0, 0.0, r]
+            members.append(('i', ('s', a), ('s', -b)))
+        else:
+            v = rng.choice(HALF)
+            ax = 'xyz'.index(kind[1])
+            n = [0.0, 0.0, 0.0]
+            n[ax] = 1.0
+            second = D.Surf(b, kind, [v]) if rng.random() < 0.5 else D.Surf(b, 'p', n + [v])
+            d.surfs += [D.Surf(a, kind, [v]), second]
+            members.append(('i', ('s', a), ('s', -b)) if rng.random() < 0.7 else ('i', ('s', -b), ('s', a)))
+    sreal, sworld = next(it), next(it)
+    d.surfs.append(D.Surf(sreal, 's', [rng.choice(HALF), rng.choice(HALF), 0.5, rng.choice([1.0, 1.5, 2.0])]))
+    d.surfs.append(D.Surf(sworld, 'so', [8.5]))
+    with_real = rng.random() < 0.6
+    ops = list(members) + ([('s', -sreal)] if with_real else [])
+    rng.shuffle(ops)
+    e = ops[0]
+    for o in ops[1:]:
+        e = ('u', e, o)
+    cids = rng.sample(range(1, 30), 3)
+    c1 = D.Cell(cids[0], e, mat=1, rho='-1.0')
+    c2 = D.Cell(cids[1], ('i', ('cc', cids[0]), ('s', -sworld)) if with_real else ('s', -sworld), mat=2, rho='-2.0')
+    c3 = D.Cell(cids[2], ('s', sworld), mat=0, imp=0)
+    cells = [c1, c2, c3]
+    rng.shuffle(cells)
+    d.cells = cells
+    d.mats = {1: [('13027', '1.0')], 2: [('26056', '-0.9'), ('6012', '-0.1')]}
+    return d
